@@ -125,6 +125,8 @@ Glu_alloc(
 	else fsupc = jcol;
 	*prev_next = Glu->map_in_sup[fsupc];
 	Glu->map_in_sup[fsupc] += num;
+	if ( Glu->map_in_sup[fsupc] > Glu->nzlumax ) /* past the end of lusup[] */
+	    SUPERLU_ABORT("Storage for the L supernodes (LUSUP) exceeded.");
 
 #if 0
 	{
